@@ -303,3 +303,82 @@ theorem decimalParse_lex (e : Env) (pre post s : Str) (neg : Bool) (c : Nat) (x 
   simp [digitsNat, List.map_append]
 
 end Xs.Conv
+
+/-! ### NaN spellings -/
+
+namespace Xs.Conv
+open Py Xs.Spec
+
+theorem digit_char_facts (c : Char) (h : isAsciiDigit c = true) :
+    isAscii c = true ∧ isAsciiSpace c = false ∧ c ≠ '_' ∧ c ≠ '-' ∧ c ≠ '+' ∧ lowerAscii c = c := by
+  have hb : 48 ≤ c.toNat ∧ c.toNat ≤ 57 := by simpa [isAsciiDigit] using h
+  refine ⟨by simp [isAscii]; omega, ?_, ?_, ?_, ?_, ?_⟩
+  · simp [isAsciiSpace]; omega
+  · rintro rfl; revert h; decide
+  · rintro rfl; revert h; decide
+  · rintro rfl; revert h; decide
+  · unfold lowerAscii
+    rw [if_neg]
+    simp; omega
+
+/-- `Decimal("NaN")`, `Decimal("-sNaN12")`, …: the strings `format(d, 'f')` writes for a NaN -/
+theorem decimalParse_nan (e : Env) (neg sg : Bool) (ds : Str) (hd : AllDigits ds) :
+    decimalParse e ((if neg then ['-'] else []) ++ (if sg then ['s'] else []) ++ ['N', 'a', 'N'] ++ ds)
+      = some (.nan neg sg (digitsVal (ds.map charVal))) := by
+  have ns : ∀ c, isAscii c = true → isAsciiSpace c = false → e.isSpace c = false := by
+    intro c h1 h2; rw [isSpace_ascii e c h1]; exact h2
+  have hsp : ∀ c ∈ ds, e.isSpace c = false := fun c hc =>
+    ns c (digit_char_facts c (hd c hc)).1 (digit_char_facts c (hd c hc)).2.1
+  have hus : ∀ c ∈ ds, decide (c ≠ '_') = true := fun c hc => by
+    simpa using (digit_char_facts c (hd c hc)).2.2.1
+  have hlow : ds.map lowerAscii = ds := by
+    rw [List.map_congr_left (g := id) (fun c hc => (digit_char_facts c (hd c hc)).2.2.2.2.2)]
+    simp
+  have hspan : spanDigits e ds = (ds.map charVal, []) := by
+    have := spanDigits_run e ds [] hd (Or.inl rfl)
+    simpa using this
+  have key : ∀ (pre : Str), pre ≠ [] → (∀ c ∈ pre, e.isSpace c = false ∧ c ≠ '_') →
+      (e.strip (pre ++ ds)).filter (· ≠ '_') = pre ++ ds := by
+    intro pre hne hpre
+    have hall : ∀ c ∈ pre ++ ds, e.isSpace c = false := by
+      intro c hc
+      rcases List.mem_append.mp hc with h | h
+      · exact (hpre c h).1
+      · exact hsp c h
+    rw [strip_eq_stripBy, stripBy_tight _ _ (digits_tight _ _ (by simp [hne]) hall)]
+    apply List.filter_eq_self.mpr
+    intro c hc
+    rcases List.mem_append.mp hc with h | h
+    · simpa using (hpre c h).2
+    · exact hus c h
+  have c1 : e.isSpace '-' = false ∧ '-' ≠ '_' := ⟨ns _ (by decide) (by decide), by decide⟩
+  have c2 : e.isSpace 's' = false ∧ 's' ≠ '_' := ⟨ns _ (by decide) (by decide), by decide⟩
+  have c3 : e.isSpace 'N' = false ∧ 'N' ≠ '_' := ⟨ns _ (by decide) (by decide), by decide⟩
+  have c4 : e.isSpace 'a' = false ∧ 'a' ≠ '_' := ⟨ns _ (by decide) (by decide), by decide⟩
+  unfold decimalParse
+  have l1 : lowerAscii 'N' = 'n' := by decide
+  have l2 : lowerAscii 'a' = 'a' := by decide
+  have l3 : lowerAscii 's' = 's' := by decide
+  cases neg <;> cases sg
+  · have := key ['N', 'a', 'N'] (by simp) (by intro c hc; simp at hc; rcases hc with rfl | rfl | rfl <;> assumption)
+    simp only [Bool.false_eq_true, if_false, if_true, List.nil_append, List.append_nil, List.append_assoc,
+      List.cons_append] at this ⊢
+    rw [this]
+    simp [takeSign, hlow, hspan, List.isPrefixOf, l1, l2, l3]
+  · have := key ['s', 'N', 'a', 'N'] (by simp) (by intro c hc; simp at hc; rcases hc with rfl | rfl | rfl | rfl <;> assumption)
+    simp only [Bool.false_eq_true, if_false, if_true, List.nil_append, List.append_nil, List.append_assoc,
+      List.cons_append] at this ⊢
+    rw [this]
+    simp [takeSign, hlow, hspan, List.isPrefixOf, l1, l2, l3]
+  · have := key ['-', 'N', 'a', 'N'] (by simp) (by intro c hc; simp at hc; rcases hc with rfl | rfl | rfl | rfl <;> assumption)
+    simp only [Bool.false_eq_true, if_false, if_true, List.nil_append, List.append_nil, List.append_assoc,
+      List.cons_append] at this ⊢
+    rw [this]
+    simp [takeSign, hlow, hspan, List.isPrefixOf, l1, l2, l3]
+  · have := key ['-', 's', 'N', 'a', 'N'] (by simp) (by intro c hc; simp at hc; rcases hc with rfl | rfl | rfl | rfl | rfl <;> assumption)
+    simp only [Bool.false_eq_true, if_false, if_true, List.nil_append, List.append_nil, List.append_assoc,
+      List.cons_append] at this ⊢
+    rw [this]
+    simp [takeSign, hlow, hspan, List.isPrefixOf, l1, l2, l3]
+
+end Xs.Conv
